@@ -164,6 +164,50 @@ func runC11(p *an.Prog, r *an.Run, tier string) {
 				}
 				bad = append(bad, "the reported peer id is transformed by "+f.FullName()+" before the registered-node lookup at "+p.Pos(u.Pos())+" (registration stores ids verbatim: a node registered under another spelling is never tracked)")
 			}
+			// refresh: every reported peer is looked up and, when found, its entry is (re)written with the record's
+			// current LastSeen — also a peer that is tracked already ("as recorded the last time the node reported it")
+			if h := loopHeader(u.Block()); h != nil && len(h.Instrs) > 0 {
+				fn := u.Parent()
+				cut := map[an.Edge]bool{}
+				for _, b := range fn.Blocks {
+					if !h.Dominates(b) {
+						continue
+					}
+					for _, in := range b.Instrs {
+						if c, ok := in.(ssa.CallInstruction); ok {
+							if eu := an.ErrEdges(c); eu.HasErr {
+								for _, e := range eu.Fail {
+									cut[e] = true
+								}
+							}
+						}
+					}
+				}
+				backToHeader := func(in ssa.Instruction) bool { return in.Block() == h }
+				if an.PathAvoiding(fn, h.Instrs[len(h.Instrs)-1], func(in ssa.Instruction) bool { return in == src.In }, backToHeader, cut) != nil {
+					bad = append(bad, "a reported peer can be passed over without its node record being looked up (loop at "+p.Pos(u.Pos())+"): the recorded check-in of a tracked peer would not be refreshed")
+				}
+				var found []an.Edge
+				if lk, ok := src.In.(*ssa.Lookup); ok && lk.CommaOk {
+					for _, b := range fn.Blocks {
+						if len(b.Instrs) == 0 {
+							continue
+						}
+						if iff, ok := b.Instrs[len(b.Instrs)-1].(*ssa.If); ok {
+							if ex, ok := iff.Cond.(*ssa.Extract); ok && ex.Tuple == ssa.Value(lk) && ex.Index == 1 {
+								found = append(found, an.Edge{From: b, To: b.Succs[0]})
+							}
+						}
+					}
+				} else if c, ok := src.In.(ssa.CallInstruction); ok {
+					found = an.ErrEdges(c).Succ
+				}
+				for _, e := range found {
+					if pathFromBlock(fn, e.To, func(in ssa.Instruction) bool { return in == ssa.Instruction(u) }, backToHeader) != nil {
+						bad = append(bad, "a reported peer whose record was found can reach the next iteration without its entry being written at "+p.Pos(u.Pos())+": a tracked peer's recorded check-in would not be refreshed")
+					}
+				}
+			}
 			// found-edge
 			if kind == "memory" {
 				lk, _ := src.In.(*ssa.Lookup)
@@ -358,30 +402,9 @@ func runC11(p *an.Prog, r *an.Run, tier string) {
 				}
 			}
 		}
-		// the expiry scan runs on every accepted keep-alive (also one that reports no peers): from the entry of the
-		// critical region no successful return is reachable without passing the scan over the tracked set
-		if region != nil {
-			isScan := func(in ssa.Instruction) bool {
-				for _, rg := range ps.ranges {
-					if in == ssa.Instruction(rg) {
-						return true
-					}
-				}
-				return false
-			}
-			okRet := func(in ssa.Instruction) bool {
-				ret, ok := in.(*ssa.Return)
-				if !ok {
-					return false
-				}
-				cls, _ := returnClass(ret)
-				return cls != "nonnil"
-			}
-			if len(ps.ranges) == 0 {
-				bad = append(bad, "the tracked peer set is never scanned for expired entries")
-			} else if in := an.PathAvoiding(region, nil, isScan, okRet, nil); in != nil {
-				bad = append(bad, "a keep-alive can be accepted (return at "+p.Pos(in.Pos())+") without the expiry scan over the tracked peers having run: peers that are no longer reported would never expire")
-			}
+		// the expiry scan runs on every accepted keep-alive (also one that reports no peers)
+		if msg := sweepSkipped(p, d, m); msg != "" {
+			bad = append(bad, msg)
 		}
 		r.Check(len(bad) == 0, "evict-predicate", kind, m.Pos(), "evict iff timestamp <= now - ExpireInterval; evicted <=> reported", "%s", strings.Join(dedup(bad), "; "))
 
@@ -483,6 +506,39 @@ func runC11(p *an.Prog, r *an.Run, tier string) {
 		// the response returned is the one filled in
 	}
 	r.Check(len(bad) == 0, "reply-wiring", "(*pool.VipnodePool).Update", upd.Pos(), "InvalidPeers <- evicted ids, ActivePeers <- URIs of NodePeers after the update", "%s", strings.Join(bad, "; "))
+}
+
+// sweepSkipped: from the entry of UpdateNodePeers' critical region no successful return is reachable without passing
+// the scan over the tracked peer set; returns the complaint, or "".
+func sweepSkipped(p *an.Prog, d *types.Named, m *ssa.Function) string {
+	region := regionOf(p, d, m)
+	if region == nil {
+		return ""
+	}
+	ps := peerSetOps(p, d, m)
+	isScan := func(in ssa.Instruction) bool {
+		for _, rg := range ps.ranges {
+			if in == ssa.Instruction(rg) {
+				return true
+			}
+		}
+		return false
+	}
+	okRet := func(in ssa.Instruction) bool {
+		ret, ok := in.(*ssa.Return)
+		if !ok {
+			return false
+		}
+		cls, _ := returnClass(ret)
+		return cls != "nonnil"
+	}
+	if len(ps.ranges) == 0 {
+		return "the tracked peer set is never scanned for expired entries"
+	}
+	if in := an.PathAvoiding(region, nil, isScan, okRet, nil); in != nil {
+		return "a keep-alive can be accepted (return at " + p.Pos(in.Pos()) + ") without the expiry scan over the tracked peers having run: peers that are no longer reported would never expire"
+	}
+	return ""
 }
 
 func isNamedType(t types.Type, name string) bool {
